@@ -156,9 +156,10 @@ Definition trade_out (s : state) (sender rcpt din ain dout aout : Z) : res state
   swap_coins s sender rcpt din t dout aout.
 
 (** The party that receives the intermediate standard coin of the first leg of a routed
-    (token-to-token) swap: the code passes the final recipient's address to [swapCoins] in both
-    legs, while the second leg is charged to the sender. *)
-Definition leg1_rcpt (sender rcpt : Z) : Z := rcpt.
+    (token-to-token) swap: the sender, who pays it into the second leg.  (Before the fix commit
+    "coinswap routed swaps return the intermediate standard coin to the sender" the code named
+    the final recipient here; corpus/C02/double-hop-other-recipient.jsonl is the witness.) *)
+Definition leg1_rcpt (sender rcpt : Z) : Z := sender.
 
 (** [doubleTradeExactInputForOutput] *)
 Definition dtrade_in (s : state) (sender rcpt din ain dout aout : Z) : res state :=
